@@ -962,6 +962,7 @@ pub fn gen_via_handle(prop: &str, tier: &str, seed: u64) -> Vec<Vec<String>> {
         c.push("READ".into());
         c.push("PARTS".into());
         c.push("SNAP".into());
+        c.push("HASSTART".into());
         for sel in sels { c.push(format!("EXIST {sel} _")); }
         c.push("END".into());
         cases.push(c);
